@@ -428,3 +428,40 @@ func vfMaxI(a, b int) int {
 	}
 	return b
 }
+
+// H_C16_unrelated: a sequence that has no positive-scoring alignment with the reference ORF (in any frame or strand) is reported as removed, or with an alignment error, in both modes: one result per input, never a crash.
+// bounds: reference ORF ATGGAA; input CCCCCC with one base (any position) replaced by a symbolic base over {A,C,G,T}; translate on/off, reverse on/off, 1 worker
+// outside: longer inputs
+func H_C16_unrelated() {
+	translate := nondetBool()
+	reverse := nondetBool()
+	in := []uint8("CCCCCC")
+	k := nondetRange(0, 5)
+	c := nondetByte()
+	assume(vfIsACGT(c))
+	in[k] = c
+	seqs := NewSeqBag(NUCLEOTIDS)
+	seqs.AddSequenceChar("s0", append([]uint8{}, in...), "")
+	ph := NewPhaser()
+	ph.SetCpus(1)
+	ph.SetReverse(reverse)
+	ph.SetTranslate(translate, GENETIC_CODE_STANDARD)
+	ch, err := ph.Phase(vfBag(NUCLEOTIDS, "ATGGAA"), seqs)
+	verifAssert(err == nil, "no error starting the phasing")
+	n := 0
+	for r := range ch {
+		n++
+		if r.Err == nil && !r.Removed {
+			verifReach("aligned after all")
+			vfFrameCheck(r, in, reverse, translate)
+		}
+		if r.Err == nil && r.Removed {
+			verifReach("removed")
+		}
+	}
+	verifAssert(n == 1, "exactly one result (or one alignment error) for the input")
+	after, _ := seqs.GetSequenceCharById(0)
+	for j := range in {
+		verifAssert(after[j] == in[j], "input not modified")
+	}
+}
